@@ -484,7 +484,7 @@ EB_API EbErrorType svt_av1_dec_init_handle(EbComponentType **p_handle, void *p_a
                                            EbSvtAv1DecConfiguration *config_ptr) {
     EbErrorType return_error = EB_ErrorNone;
 
-    if (p_handle == NULL)
+    if (p_handle == NULL || config_ptr == NULL)
         return EB_ErrorBadParameter;
 
     svt_log_init();
@@ -577,7 +577,7 @@ EB_API EbErrorType svt_av1_dec_init(EbComponentType *svt_dec_component) {
 EB_API EbErrorType svt_av1_dec_frame(EbComponentType *svt_dec_component, const uint8_t *data,
                                      const size_t data_size, uint32_t is_annexb) {
     EbErrorType return_error = EB_ErrorNone;
-    if (svt_dec_component == NULL)
+    if (svt_dec_component == NULL || data == NULL)
         return EB_ErrorBadParameter;
 
     EbDecHandle *dec_handle_ptr       = (EbDecHandle *)svt_dec_component->p_component_private;
@@ -629,7 +629,7 @@ EB_API EbErrorType svt_av1_dec_get_picture(EbComponentType *   svt_dec_component
     (void)frame_info;
 
     EbErrorType return_error = EB_ErrorNone;
-    if (svt_dec_component == NULL)
+    if (svt_dec_component == NULL || p_buffer == NULL || p_buffer->p_buffer == NULL)
         return EB_ErrorBadParameter;
 
     EbDecHandle *dec_handle_ptr = (EbDecHandle *)svt_dec_component->p_component_private;
